@@ -269,6 +269,18 @@ func writeEvidence(pc *propCheck, r *Report, seed int, wall float64, nviol int) 
 		"trusted_base":         pc.trusted,
 		"exhaustive":           true,
 	}
+	if len(assumptionUsed) > 0 {
+		var used []map[string]string
+		for _, a := range fieldAssumptions {
+			if assumptionUsed[a.ID] {
+				used = append(used, map[string]string{"id": a.ID, "field": a.key, "fact": a.Fact, "reason": a.Reason})
+			}
+		}
+		cov["reviewed_assumptions_used"] = used
+	}
+	if feCtx != nil && feCtx.ren != nil && len(feCtx.ren.notes) > 0 {
+		cov["anchors_resolved_by_shape"] = feCtx.ren.notes
+	}
 	for k, v := range r.Extra {
 		cov[k] = v
 	}
@@ -305,12 +317,16 @@ func stripOrdinal(s string) string {
 		s = s[:i]
 	}
 	s = shapeQual.ReplaceAllString(s, ".")
+	// unexported field and method names are not part of the shape (they get renamed)
+	s = shapeUnexp.ReplaceAllString(s, ".·")
 	s = shapeLen.ReplaceAllString(s, "len()")
 	// a value made in place and the same value made by a helper
 	s = shapeCall.ReplaceAllString(s, "VALUE")
 	s = strings.ReplaceAll(s, "MakeMap", "VALUE")
 	return s
 }
+
+var shapeUnexp = regexp.MustCompile(`\.[a-z_][A-Za-z0-9_]*`)
 
 var shapeCall = regexp.MustCompile(`[A-Za-z_][A-Za-z0-9_]*\([^()]*\)#[0-9]+`)
 
